@@ -31,6 +31,7 @@ const (
 	svNil
 	svBytes
 	svAtom
+	svNonNeg // an integer known to be >= 0
 )
 
 type sval struct {
@@ -60,6 +61,8 @@ func (v sval) String() string {
 			return "!" + v.atom
 		}
 		return v.atom
+	case svNonNeg:
+		return ">=0"
 	}
 	return "?"
 }
@@ -109,6 +112,7 @@ type s9 struct {
 	limit  int
 	capped bool
 	depth  int
+	nnMemo map[*ssa.Parameter]int
 }
 
 func newS9(c *Ctx) *s9 { return &s9{c: c, limit: 20000} }
@@ -184,11 +188,14 @@ func (e *s9) eval(fr *s9frame, st *s9state, v ssa.Value) sval {
 			}
 		}
 	case *ssa.Parameter:
-		if sv, ok := fr.params[t]; ok {
+		if sv, ok := fr.params[t]; ok && sv.k != svTop {
 			return sv
 		}
 		if isErrorType(t.Type()) {
 			return sval{k: svTop}
+		}
+		if e.nonNegParam(t) {
+			return sval{k: svNonNeg}
 		}
 	case *ssa.UnOp:
 		switch t.Op {
@@ -207,6 +214,24 @@ func (e *s9) eval(fr *s9frame, st *s9state, v ssa.Value) sval {
 			}
 			if sv, ok := fr.cells[t.X]; ok {
 				return sv
+			}
+			if g, ok := t.X.(*ssa.Global); ok {
+				if sv, ok := e.globalInit(g); ok {
+					return sv
+				}
+			}
+			// a local that lives in a cell only because a closure captures it, assigned exactly once in this
+			// function and nowhere else: its value is that of the assigned expression
+			if al, ok := t.X.(*ssa.Alloc); ok && al.Parent() == fr.fn && e.depth < 6 {
+				sts := cellStores(al)
+				if len(sts) == 1 && sts[0].Parent() == fr.fn {
+					e.depth++
+					sv := e.eval(fr, st, sts[0].Val)
+					e.depth--
+					if sv.k != svTop {
+						return sv
+					}
+				}
 			}
 			if isErrorType(t.Type()) {
 				return sval{k: svNil} // fault-free writer: every error cell holds nil
@@ -237,6 +262,18 @@ func (e *s9) eval(fr *s9frame, st *s9state, v ssa.Value) sval {
 				return sval{k: svBytes, str: x.str}
 			}
 		}
+		if t.Op == token.ADD || t.Op == token.MUL {
+			nn := func(v sval) bool { return v.k == svNonNeg || (v.k == svSign && v.sg >= 0) }
+			pos := func(v sval) bool { return v.k == svSign && v.sg > 0 }
+			switch {
+			case t.Op == token.ADD && nn(x) && nn(y) && (pos(x) || pos(y)):
+				return sval{k: svSign, sg: 1}
+			case t.Op == token.MUL && pos(x) && pos(y):
+				return sval{k: svSign, sg: 1}
+			case nn(x) && nn(y):
+				return sval{k: svNonNeg}
+			}
+		}
 	case *ssa.Phi:
 		if sv, ok := fr.headEnv[t]; ok {
 			return sv
@@ -259,6 +296,18 @@ func (e *s9) eval(fr *s9frame, st *s9state, v ssa.Value) sval {
 			}
 			if k, isC := elems[0].(*ssa.Const); isC && k.Value != nil {
 				return sval{k: svBytes, str: string([]byte{byte(k.Int64())})}
+			}
+		}
+		// a prefix x[:h] with h > 0 keeps the first byte of x
+		if t.Low == nil {
+			x := e.eval(fr, st, t.X)
+			if x.k == svBytes && x.str != "" {
+				if t.High == nil {
+					return x
+				}
+				if h := e.eval(fr, st, t.High); h.k == svSign && h.sg > 0 {
+					return sval{k: svBytes, str: x.str[:1]}
+				}
 			}
 		}
 	case *ssa.Convert:
@@ -297,6 +346,29 @@ func (e *s9) eval(fr *s9frame, st *s9state, v ssa.Value) sval {
 		}
 		if isErrorType(t.Type()) {
 			return sval{k: svNil}
+		}
+		// a byte-string helper called before the explored region (layout prepared ahead of a loop): when all its
+		// alternatives agree on the first byte, that much is known of the result
+		if cal := t.Call.StaticCallee(); e.expandable(cal) && e.depth < 4 {
+			e.depth++
+			alts := e.alternatives(fr, st, t)
+			e.depth--
+			first := ""
+			okAll := len(alts) > 0
+			for _, a := range alts {
+				if a.val.k != svBytes || a.val.str == "" {
+					okAll = false
+					break
+				}
+				if first == "" {
+					first = a.val.str[:1]
+				} else if first != a.val.str[:1] {
+					okAll = false
+				}
+			}
+			if okAll {
+				return sval{k: svBytes, str: first}
+			}
 		}
 		if bt, ok := t.Type().Underlying().(*types.Basic); ok && bt.Info()&types.IsBoolean != 0 {
 			if cal := t.Call.StaticCallee(); cal != nil && e.c.inPkg(cal) && len(t.Call.Args) == 1 {
@@ -581,4 +653,137 @@ func sortedLits(m map[string]bool) string {
 	}
 	sort.Strings(ks)
 	return strings.Join(ks, " ∧ ")
+}
+
+// globalInit: the value a package-level variable is given by its initialiser (the single store in the
+// package's init function), when no other function of the package stores to it.
+func (e *s9) globalInit(g *ssa.Global) (sval, bool) {
+	if e.depth > 6 {
+		return sval{}, false
+	}
+	var init *ssa.Store
+	for _, fn := range e.c.allFns {
+		for _, b := range fn.Blocks {
+			for _, in := range b.Instrs {
+				if st, ok := in.(*ssa.Store); ok && st.Addr == ssa.Value(g) {
+					if fn.Name() != "init" || init != nil {
+						return sval{}, false
+					}
+					init = st
+				}
+			}
+		}
+	}
+	if init == nil {
+		// the synthetic package initialiser is not among the source functions
+		if pk := g.Pkg; pk != nil {
+			if fn := pk.Func("init"); fn != nil {
+				for _, b := range fn.Blocks {
+					for _, in := range b.Instrs {
+						if st, ok := in.(*ssa.Store); ok && st.Addr == ssa.Value(g) {
+							if init != nil {
+								return sval{}, false
+							}
+							init = st
+						}
+					}
+				}
+			}
+		}
+	}
+	if init == nil {
+		return sval{}, false
+	}
+	e.depth++
+	defer func() { e.depth-- }()
+	fr := &s9frame{fn: init.Parent(), params: map[*ssa.Parameter]sval{}, cells: map[ssa.Value]sval{}, resolve: map[ssa.Value]string{}}
+	st := &s9state{env: map[ssa.Value]sval{}, cells: map[ssa.Value]sval{}, lits: map[string]bool{}}
+	sv := e.eval(fr, st, init.Val)
+	return sv, sv.k == svBytes
+}
+
+// nonNegParam: an int parameter that is >= 0 by induction over the package's call sites: every call passes a
+// non-negative constant, or the caller's own inductively non-negative parameter plus a non-negative constant.
+func (e *s9) nonNegParam(p *ssa.Parameter) bool {
+	bt, ok := p.Type().Underlying().(*types.Basic)
+	if !ok || bt.Info()&types.IsInteger == 0 {
+		return false
+	}
+	if e.nnMemo == nil {
+		e.nnMemo = map[*ssa.Parameter]int{}
+	}
+	switch e.nnMemo[p] {
+	case 1:
+		return true
+	case 2:
+		return false
+	case 3:
+		return true // assumed while proving (induction hypothesis)
+	}
+	e.nnMemo[p] = 3
+	fn := p.Parent()
+	idx := -1
+	for i, q := range fn.Params {
+		if q == p {
+			idx = i
+		}
+	}
+	ok = idx >= 0
+	sites := 0
+	var nonNeg func(v ssa.Value, d int) bool
+	nonNeg = func(v ssa.Value, d int) bool {
+		if d > 4 {
+			return false
+		}
+		switch t := v.(type) {
+		case *ssa.Const:
+			return t.Value != nil && t.Int64() >= 0
+		case *ssa.Parameter:
+			return e.nonNegParam(t)
+		case *ssa.BinOp:
+			if t.Op == token.ADD || t.Op == token.MUL {
+				return nonNeg(t.X, d+1) && nonNeg(t.Y, d+1)
+			}
+		case *ssa.UnOp:
+			// a spilled parameter
+			if sp := spilledParam(t); sp != nil {
+				return e.nonNegParam(sp)
+			}
+			if fv, isFV := t.X.(*ssa.FreeVar); isFV {
+				if al := cellRoot(fv); al != nil {
+					all := true
+					for _, st := range cellStores(al) {
+						if !nonNeg(st.Val, d+1) {
+							all = false
+						}
+					}
+					return all
+				}
+			}
+		}
+		return false
+	}
+	for _, caller := range e.c.allFns {
+		for _, ci := range callsIn(caller) {
+			if ci.Common().StaticCallee() != fn {
+				continue
+			}
+			sites++
+			if idx >= len(ci.Common().Args) || !nonNeg(ci.Common().Args[idx], 0) {
+				ok = false
+			}
+		}
+	}
+	if fn.Object() != nil && fn.Object().Exported() {
+		ok = false // callers outside the package
+	}
+	if sites == 0 {
+		ok = false
+	}
+	if ok {
+		e.nnMemo[p] = 1
+	} else {
+		e.nnMemo[p] = 2
+	}
+	return ok
 }
